@@ -622,6 +622,8 @@ pub fn run(cfg: &Cfg, rep: &mut Report) -> PropMeta {
     run_cases(cfg, "long_chains", cfg.n(800, 5000) as u64, rep, |case, rng, rep| context_case(cfg, "long_chains", case, rng, rep, &[4, 8, 16, 32, 64], 20, cfg.pick(30, 40)));
     // short chains, larger degrees
     run_cases(cfg, "short_chains", cfg.n(160, 500) as u64, rep, |case, rng, rep| context_case(cfg, "short_chains", case, rng, rep, cfg.pick(&[128, 256, 512, 1024][..], &[128, 256, 512, 1024, 2048][..]), 4, cfg.pick(20, 30)));
+    // large degrees with chains long enough for the >128-bit decomposition path (batched / blocked code only differs up there)
+    run_cases(cfg, "large_degree_chains", cfg.n(3, 32) as u64, rep, |case, rng, rep| context_case(cfg, "large_degree_chains", case, rng, rep, &[2048, 4096], 8, 2));
     if !cfg.quick() {
         run_cases(cfg, "large_degree", cfg.n(1, 24) as u64, rep, |case, rng, rep| context_case(cfg, "large_degree", case, rng, rep, &[4096, 8192], 3, 3));
     }
@@ -634,7 +636,7 @@ pub fn run(cfg: &Cfg, rep: &mut Report) -> PropMeta {
             "decode tolerance = (sum of coefficient tolerances)/scale + he::ckks_fp_tolerance (documented double-precision cancellation of the decoder); a word of q being exactly 0 (probability 2^-64) is ignored in that bound".into(),
             "asserted domain: scale > 0, log2(scale) < bitlen(q)-1, scaled magnitude <= 2^(bitlen(q)-2) (documented 'plus one sign bit' rule; integers: |v| < 2^(bitlen(q)-3)); must-refuse: scale <= 0, scale >= 2^(bitlen(q)-1), scaled magnitude > q/2; a 2^-20 relative band around the thresholds and the gap between them are executed but not asserted".into(),
             "scales are doubles, so scales and scaled magnitudes above 2^1023 (possible for chains beyond ~17 sixty-bit primes) are not representable and not exercised; empty coefficient lists are executed but not asserted".into(),
-            "degrees above 8192 (quick: above 1024) are not exercised; only data levels are used (the decoder rejects plaintexts on a pure key level)".into(),
+            "degrees above 8192 (quick: above 4096) are not exercised; only data levels are used (the decoder rejects plaintexts on a pure key level)".into(),
         ],
         exhaustive: false,
         floor: cfg.pick(20000, 200000),
